@@ -7,6 +7,7 @@ GENERATORS = [
     ("rngcooked", "RngCooked.lean", []),
     ("pkgstate", "PackageState.lean", ["{repo}"]),
     ("unicode", "Unicode.lean", []),
+    ("evalfacts", "EvalFacts.lean", ["{repo}"]),
 ]
 
 
@@ -309,8 +310,12 @@ def special_concurrent(prop, sc, tier, seed, harness, repo):
     if race is None:
         return {"stats": {"cases": 0}, "failures": [{"case": "", "kind": "the race-detector build of the harness failed: " + err[:500], "impl": [], "model": [], "concrete": False}]}
     n = sc["thorough"] if tier == "thorough" else sc["quick"]
-    r = subprocess.run([harness, "gen", "run", sc["profile"], str(seed), str(n)], capture_output=True, text=True)
-    lines = [l for l in r.stdout.split("\n") if l]
+    lines = []
+    # runners of different kinds side by side: flow, numeric built-ins, random built-ins, markup incl. replacement markers, commands
+    for prof in (sc["profile"], "expr", "numeric", "markuprun", "rand", "cmds", "lines"):
+        # (blocks of the same profile stay adjacent: runners exercising the same code paths overlap in time)
+        r = subprocess.run([harness, "gen", "run", prof, str(seed), str(max(n // 3, 100))], capture_output=True, text=True)
+        lines += [l for l in r.stdout.split("\n") if l]
     text = "\n".join(lines) + "\n"
     def obs_of(out):
         obs = {}
@@ -376,6 +381,11 @@ def special_load(prop, sc, tier, seed, harness, repo):
             continue
         seedm = re.search(r"\(seed \(s[ 0-9]*\)\)", line).group(0)
         model_lines.append((cid, line, f"(case load {cid} (oracle (se {' '.join(ses)}) (nodes {' '.join(nodes)})) {seedm})"))
+        # independent of the lexer under test: a content line indented with both tabs and spaces must make loading fail
+        mixed = mixed_indent_line(line)
+        if mixed is not None and len(io) > 1 and io[1] == "RUNNER":
+            failures.append({"case": line, "kind": "a script whose line %r is indented with both tabs and spaces was loaded instead of being refused" % mixed, "impl": io, "model": [], "concrete": True})
+            continue
         # oracle contract of the grammar: a clean parse has at least one node
         for a, b in zip(ses, nodes):
             if a == "0" and b == "0":
@@ -406,6 +416,19 @@ def special_load(prop, sc, tier, seed, harness, repo):
     return {"stats": stats, "failures": failures[:5], "samples": [pretty_load(l) for l in lines[:2]]}
 
 
+def mixed_indent_line(case):
+    """first content line (not blank, not comment-only) of any reader whose indentation contains both a tab and a space"""
+    for m in re.findall(r"\(b((?: \d+)*)\)", case.split("(seed", 1)[0]):
+        data = bytes(int(x) for x in m.split())
+        text = data.decode("utf-8", errors="replace")
+        for ln in re.split(r"\r\n|\n|\r", text)[1:]:   # indentation is what follows a line end
+            body = ln.lstrip(" \t")
+            ind = ln[:len(ln) - len(body)]
+            if " " in ind and "\t" in ind and body.strip() != "" and not body.startswith("//"):
+                return ln[:40]
+    return None
+
+
 def pretty_load(line):
     def dec(m):
         try:
@@ -413,6 +436,33 @@ def pretty_load(line):
         except ValueError:
             return m.group(0)
     return re.sub(r"\(b((?: \d+)*)\)", dec, line)[:700]
+
+
+def unesc_len(text):
+    """number of characters of an escaped observation string"""
+    return len(re.sub(r"\\u\{[0-9a-f]+\}", "X", text))
+
+
+def markup_ranges(obs, case):
+    """C15 on the implementation's own results: every attribute lies inside the returned text (in characters), lengths and
+    positions are non-negative, and asking for the text of an attribute never panicked"""
+    for i, o in enumerate(obs):
+        if not o.startswith("OK|"):
+            continue
+        parts = o.split("|")
+        if len(parts) < 3:
+            continue
+        n = unesc_len(parts[1])
+        for a in parts[2].split(";"):
+            m = re.match(r"^(.*?)@(-?\d+)\+(-?\d+)@(-?\d+)\{", a)
+            if not m:
+                continue
+            pos, ln = int(m.group(2)), int(m.group(3))
+            if pos < 0 or ln < 0 or pos + ln > n:
+                return f"observation {i}: attribute {m.group(1)} has position {pos} length {ln} in a text of {n} characters"
+        if len(parts) > 3 and "PANIC" in parts[3]:
+            return f"observation {i}: TextForAttribute panicked"
+    return None
 
 
 def runprop(profile, fields, elem_fields, quick, thorough, predicate=no_panic, nontrivial=None, extra_streams=(), **kw):
@@ -433,6 +483,7 @@ PROPERTIES = {
                    leanchecker=["Ysgo.Props.C01"]),
     "C02": runprop("expr", ("res", "log"), ("text",), 1500, 60000, nontrivial=lambda obs, case: any("probe(" in o for o in obs),
                    extra_streams=[{"stream": "exprsyn", "profile": "all", "quick": 6000, "thorough": 150000, "nontrivial": lambda obs, case: not obs[0].startswith(("LOADERR", "LEXERR"))}],
+                   generated_facts=["Generated.EvalFacts (tools/evalfacts, go/ast): operator switch, lazy tests, same-type guard of evaluateBinaryOperation, built-in registry, token-to-operator maps == the model (Props/C02Facts: opSwitch_is_model for all operators and values, lazyTests_are_model, sameTypeGuard_is_model, builtin_registry_is_model, token_maps_are_model)"],
                    rule="run/expr: expression trees of depth <= 5 over literals of the three types, variables, built-ins and logging probe functions, embedded in lines, conditions, assignments and calls; compared: rendered value or error, and the probe log (order and count of evaluations); non-trivial = at least one probe invocation observed",
                    leanchecker=["Ysgo.Props.C02"]),
     "C03": runprop("vars", ("res", "v"), ("text",), 1500, 60000, nontrivial=lambda obs, case: sum(1 for o in obs if obs_kind(o) == "HSET") >= 1 and len({parse_run(o)["v"] for o in obs}) >= 3,
@@ -462,8 +513,11 @@ PROPERTIES = {
     },
     "C15": {
         "level": "proof",
-        "streams": [{"stream": "markup", "profile": "fuzz", "quick": 10000, "thorough": 500000, "predicate": no_panic, "nontrivial": lambda obs, case: obs[0].startswith("OK")},
-                    {"stream": "markup", "profile": "utf8", "quick": 3000, "thorough": 200000, "predicate": no_panic, "nontrivial": lambda obs, case: True}],
+        "streams": [{"stream": "markup", "profile": "fuzz", "quick": 10000, "thorough": 500000, "predicate": both(no_panic, markup_ranges), "nontrivial": lambda obs, case: obs[0].startswith("OK")},
+                    {"stream": "markup", "profile": "utf8", "quick": 3000, "thorough": 200000, "predicate": no_panic, "nontrivial": lambda obs, case: True},
+                    # results of a parser value that has parsed other lines before (also failing ones) must be safe to use too
+                    {"stream": "markup", "profile": "history", "quick": 4000, "thorough": 150000, "predicate": both(no_panic, markup_ranges), "nontrivial": lambda obs, case: obs[0].startswith("OK")},
+                    {"stream": "markup", "profile": "chunks", "quick": 3000, "thorough": 100000, "predicate": both(no_panic, markup_ranges), "nontrivial": lambda obs, case: obs[0].count("@") >= 2}],
         "assumptions": ["the tie between the model and the implementation on arbitrary bytes is sampled"],
         "rule": "markup/fuzz: arbitrary byte strings incl. invalid UTF-8 and token-level assemblies of marker fragments ([ [/ /] = \" \\ names digits spaces); compared: outcome class, text, attributes, and TextForAttribute of every attribute (the enclosed text or PANIC); predicate: no panic; markup/utf8 ties the UTF-8 decoding model",
         "leanchecker": ["Ysgo.Props.C15"],
